@@ -33,6 +33,9 @@ namespace riddle
                 case '\n':
                     error("newline in string literal..");
                     return nullptr;
+                case -1:
+                    error("unterminated string literal..");
+                    return nullptr;
                 default:
                     str += ch;
                 }
